@@ -1,4 +1,33 @@
 package lexer
 
+import (
+	"io"
+
+	"github.com/moorara/algo/lexer"
+	"github.com/moorara/algo/lexer/input"
+)
+
 // VerifAdvanceDFA exposes the coded transition table to the verification harness.
 func VerifAdvanceDFA(state int, r rune) int { return advanceDFA(state, r) }
+
+type verifStubInput struct{}
+
+func (verifStubInput) Next() (rune, error)               { return 0, nil }
+func (verifStubInput) Retract()                          {}
+func (verifStubInput) Lexeme() (string, lexer.Position)  { return "xx", lexer.Position{} }
+func (verifStubInput) Skip() lexer.Position              { return lexer.Position{} }
+
+// VerifEvalKind returns the terminal evalDFA attributes to a state ("ERR" for none).
+func VerifEvalKind(state int) string {
+	l := &Lexer{in: verifStubInput{}}
+	return string(l.evalDFA(state).Terminal)
+}
+
+// VerifNewWithBuffer builds a lexer over a reader of half-size n (the production size is bufferSize).
+func VerifNewWithBuffer(filename string, src io.Reader, n int) (*Lexer, error) {
+	in, err := input.New(filename, src, n)
+	if err != nil {
+		return nil, err
+	}
+	return &Lexer{in: in}, nil
+}
